@@ -136,6 +136,27 @@ def cache_key_complete(repo, col, shorts):
                 missing = sorted(x for x in leaves
                                  if x in varying and x not in key_names
                                  and x != cache)
+                # a record (dict / object) of which the key takes some fields
+                # while the value is computed from the record as a whole: the
+                # fields the computation reads have to be among them
+                if not missing:
+                    kexprs = [key] + [d.value for nm in names_in(key)
+                                      for d in defs.get(nm, [])
+                                      if d.kind == "assign" and
+                                      d.value is not None]
+                    for rec in sorted(key_names & varying):
+                        kf, kwhole = set(), False
+                        for e in kexprs:
+                            f_, w_ = _fields_of(e, rec)
+                            kf |= f_
+                            kwhole = kwhole or w_
+                        if kwhole or not kf:
+                            continue
+                        vf, complete = _fields_read_by(fn, st.value, rec)
+                        extra = sorted(vf - kf)
+                        if extra:
+                            missing.append("%s[%s]" % (rec, ", ".join(
+                                repr(x) for x in extra)))
                 # callables / modules are not data
                 missing = [x for x in missing if not (
                     x in m.functions or x in m.imports or x in m.classes)]
@@ -150,6 +171,78 @@ def cache_key_complete(repo, col, shorts):
                             "is" if len(missing) == 1 else "are"), node=st)
     col.add(rule, "package", "%d keyed caches" % n, True, "",
             nontrivial=False)
+
+
+def _fields_of(expr, rec):
+    """(constant fields of `rec` the expression reads, rec used whole)."""
+    fields, whole = set(), False
+    proj = set()
+    for x in ast.walk(expr):
+        if isinstance(x, ast.Subscript) and isinstance(x.value, ast.Name) and \
+                x.value.id == rec and isinstance(x.slice, ast.Constant):
+            fields.add(x.slice.value)
+            proj.add(id(x.value))
+        elif isinstance(x, ast.Call) and isinstance(x.func, ast.Attribute) and \
+                x.func.attr == "get" and isinstance(x.func.value, ast.Name) \
+                and x.func.value.id == rec and x.args and \
+                isinstance(x.args[0], ast.Constant):
+            fields.add(x.args[0].value)
+            proj.add(id(x.func.value))
+        elif isinstance(x, ast.Attribute) and isinstance(x.value, ast.Name) \
+                and x.value.id == rec and x.attr != "get":
+            fields.add(x.attr)
+            proj.add(id(x.value))
+    for x in ast.walk(expr):
+        if isinstance(x, ast.Name) and x.id == rec and id(x) not in proj:
+            whole = True
+    return fields, whole
+
+
+def _fields_read_by(fn, expr, rec, depth=0):
+    """Fields of `rec` read by the computation `expr` in fn, following `rec`
+    into the package functions it is passed to.  (fields, complete)."""
+    fields, whole = _fields_of(expr, rec)
+    complete = True
+    if depth > 3:
+        return fields, False
+    for c in ast.walk(expr):
+        if not isinstance(c, ast.Call):
+            continue
+        passed = [i for i, a in enumerate(c.args)
+                  if isinstance(a, ast.Name) and a.id == rec]
+        kw = [k.arg for k in c.keywords
+              if isinstance(k.value, ast.Name) and k.value.id == rec and k.arg]
+        if not passed and not kw:
+            continue
+        h = resolve_pkg_call(fn, c)
+        targets = [h] if h is not None else []
+        if h is None and isinstance(c.func, ast.Attribute):
+            # a method of some class of the package (an interface with a
+            # few implementations): any of them may run
+            from .scope import GENERIC_METHODS
+            if c.func.attr not in GENERIC_METHODS:
+                targets = [cc.methods[c.func.attr]
+                           for cc in fn.module.repo.all_classes()
+                           if c.func.attr in cc.methods]
+                if len(targets) > 6:
+                    targets = []
+        if not targets:
+            complete = False
+            continue
+        for h in targets:
+            ps = list(h.params)
+            if ps and ps[0] in ("self", "cls") and isinstance(c.func,
+                                                              ast.Attribute):
+                ps = ps[1:]
+            names = [ps[i] for i in passed if i < len(ps)] + kw
+            for pn in names:
+                if pn not in h.params:
+                    continue
+                body = ast.Module(body=h.node.body, type_ignores=[])
+                f2, c2 = _fields_read_by(h, body, pn, depth + 1)
+                fields |= f2
+                complete = complete and c2
+    return fields, complete
 
 
 # ---------------------------------------------------------------------
@@ -1603,4 +1696,764 @@ def percent_decoding_only_for_file_urls(repo, col, short="accessor"):
     if n == 0:
         col.add(rule, short, "percent-decoding of URL paths", True,
                 "no url2pathname / unquote call in %s" % short, undecided=True)
+    return n
+
+
+# ---------------------------------------------------------------------
+# two index spaces in the slice converter: positions in (column, row, slice)
+# order and axis numbers of the volume (X, Y, Z).  The orientation
+# permutation maps the first to the second, its inverse back: a value taken
+# from one of them indexes vectors of the *other* order only  (C15)
+# ---------------------------------------------------------------------
+def index_space_agreement(repo, col, shorts=("scripts.slices_to_precomputed",
+                                             "slice_reader")):
+    rule = "E-AXIS.index-space"
+    from .rules_axis import XYZ_VECTORS, CRS_VECTORS
+    n = 0
+    for ms in shorts:
+        try:
+            m = repo.module(ms)
+        except Exception:
+            continue
+        for fn in m.functions.values():
+            defs = local_defs(fn.node)
+            # tables: name -> (order of its positions, space of its values)
+            tables = {}
+            for name, ds in defs.items():
+                vs = [d.value for d in ds if d.value is not None
+                      and d.index is None and not d.elem]
+                if len(vs) != 1:
+                    continue
+                t = norm(vs[0])
+                if "AXIS_PERMUTATION_FOR_RAS[" in t:
+                    tables[name] = ("CRS", "XYZ")
+            if "input_axis_permutation" in fn.params:
+                tables.setdefault("input_axis_permutation", ("CRS", "XYZ"))
+            for name, ds in defs.items():
+                vs = [d.value for d in ds if d.value is not None
+                      and d.index is None and not d.elem]
+                if len(vs) == 1 and isinstance(vs[0], ast.Call) and \
+                        (call_name(vs[0]) or "").split(".")[-1] == \
+                        "invert_permutation" and vs[0].args and \
+                        norm(vs[0].args[0]) in tables:
+                    o, v_ = tables[norm(vs[0].args[0])]
+                    tables[name] = (v_, o)
+            if not tables:
+                continue
+            order = {nm: "XYZ" for nm in XYZ_VECTORS if "." not in nm}
+            order.update({nm: "CRS" for nm in CRS_VECTORS})
+            order.update({nm: o for nm, (o, _) in tables.items()})
+            for name, ds in defs.items():
+                vs = [d.value for d in ds if d.value is not None
+                      and d.index is None and not d.elem]
+                if len(vs) == 1 and isinstance(vs[0], ast.Call) and \
+                        (call_name(vs[0]) or "").split(".")[-1] == "permute" \
+                        and len(vs[0].args) == 2 and \
+                        norm(vs[0].args[1]) in tables:
+                    order[name] = tables[norm(vs[0].args[1])][0]
+
+            def space_of(e, depth=0):
+                """Index space of an index expression: the value space of the
+                table it is read from."""
+                if isinstance(e, ast.Subscript) and \
+                        isinstance(e.value, ast.Name) and \
+                        e.value.id in tables and \
+                        const_int(e.slice) is not None:
+                    return tables[e.value.id][1]
+                if isinstance(e, ast.Name) and depth < 3:
+                    vs = [d.value for d in defs.get(e.id, [])
+                          if d.value is not None]
+                    if len(vs) == 1 and not any(
+                            d.kind in ("for", "comp", "param")
+                            for d in defs.get(e.id, [])):
+                        return space_of(vs[0], depth + 1)
+                return None
+            for x in walk_local(fn.node):
+                if not (isinstance(x, ast.Subscript) and
+                        isinstance(x.value, ast.Name) and
+                        x.value.id in order):
+                    continue
+                sp = space_of(x.slice)
+                if sp is None:
+                    continue
+                n += 1
+                ok = sp == order[x.value.id]
+                col.add(rule, fn, norm(x)[:60], ok, "" if ok else
+                        "`%s` is in %s order but is indexed with `%s`, which "
+                        "is %s: the element of another axis is taken whenever "
+                        "the orientation permutes the axes" % (
+                            x.value.id,
+                            "(column, row, slice)" if order[x.value.id] == "CRS"
+                            else "(X, Y, Z)", norm(x.slice),
+                            "an axis number of the volume (X, Y, Z)"
+                            if sp == "XYZ" else
+                            "a position in (column, row, slice) order"),
+                        node=x)
+    col.add(rule, "package", "%d indexings through the orientation tables"
+            % n, True, "", nontrivial=False)
+    return n
+
+
+# ---------------------------------------------------------------------
+# the --input-min/--input-max rescaling is installed on the array proxy
+# (proxy._slope / proxy._inter): an array read from the proxy *before* that
+# carries the file's own scaling only  (C01)
+# ---------------------------------------------------------------------
+def rescale_before_load(repo, col):
+    from .core import enclosing_stmt_map
+    rule = "E-ORDER.rescale-before-load"
+    from .core import inline_view
+    fn = inline_view(repo.func("volume_reader",
+                               "nibabel_image_to_precomputed"),
+                     keep=("volume_to_precomputed",))
+    cfg = fn.cfg()
+    owner = enclosing_stmt_map(fn.node)
+    defs = local_defs(fn.node)
+    writes = []
+    for st in stmts_of(fn.node):
+        if isinstance(st, (ast.Assign, ast.AugAssign)):
+            tgs = st.targets if isinstance(st, ast.Assign) else [st.target]
+            if any(isinstance(t, ast.Attribute) and
+                   t.attr.lstrip("_") in ("slope", "inter") for t in tgs):
+                writes.append(st)
+    if not writes:
+        col.add(rule, fn, "proxy._slope / proxy._inter", True,
+                "the rescaling is not installed by assigning the proxy's "
+                "slope / intercept in this function", undecided=True)
+        return
+    # what is handed to the chunk writer as the volume
+    sinks = [c for c in calls_in(fn.node)
+             if (call_name(c) or "").split(".")[-1] == "volume_to_precomputed"]
+    vol_names = set()
+    for c in sinks:
+        a = c.args[1] if len(c.args) > 1 else kwarg(c, "volume")
+        if a is not None:
+            vol_names |= closure_names(fn.node, names_in(a), defs)
+    loads = []
+
+    def materialises(f, c, depth=0):
+        nm = f.module.resolve(call_name(c) or "") or ""
+        if nm in ("numpy.asanyarray", "numpy.asarray", "numpy.array",
+                  "numpy.ascontiguousarray") or \
+                (isinstance(c.func, ast.Attribute) and
+                 c.func.attr in ("get_fdata", "get_data")):
+            return True
+        if depth < 2:
+            h = resolve_local_call(f, c)
+            if h is not None and h.key != f.key:
+                return any(isinstance(r, ast.Return) and r.value is not None
+                           and any(isinstance(x, ast.Call) and
+                                   materialises(h, x, depth + 1)
+                                   for x in ast.walk(r.value))
+                           for r in stmts_of(h.node))
+        return False
+    for c in calls_in(fn.node):
+        if materialises(fn, c):
+            st = owner.get(id(c))
+            if isinstance(st, ast.Assign) and any(
+                    isinstance(t, ast.Name) and t.id in vol_names
+                    for t in st.targets):
+                loads.append((c, st))
+    if not loads:
+        col.add(rule, fn, "array read from the proxy", True,
+                "no full read of the image data that reaches "
+                "volume_to_precomputed was recognised", undecided=True)
+        return
+    for c, st in loads:
+        ln = cfg.node_of(st)
+        late = [w for w in writes if ln is not None and
+                cfg.node_of(w) is not None and
+                cfg.node_of(w).id in cfg.reachable(ln)]
+        col.add(rule, fn, norm(c)[:60], not late, "" if not late else
+                "the data is read into memory here, and `%s` (line %d) "
+                "installs the input-min / input-max rescaling afterwards: "
+                "the loaded array does not carry it" % (
+                    norm(late[0])[:50], late[0].lineno), node=c)
+
+
+# ---------------------------------------------------------------------
+# order="K" / order="A" make the sequence of elements depend on how the
+# caller's array happens to lie in memory (a transposed view, a Fortran-
+# ordered volume from nibabel): what is written to a file or used as an
+# index stream must not  (common rule)
+# ---------------------------------------------------------------------
+def memory_order_dependent(repo, col, shorts):
+    rule = "E-AXIS.memory-order"
+    n = 0
+    for ms in shorts:
+        try:
+            m = repo.module(ms)
+        except Exception:
+            continue
+        for fn in m.functions.values():
+            for c in calls_in(fn.node):
+                leaf = c.func.attr if isinstance(c.func, ast.Attribute) \
+                    else (call_name(c) or "").split(".")[-1]
+                if leaf not in ("ravel", "flatten", "reshape", "tobytes",
+                                "tostring", "nditer"):
+                    continue
+                o = kwarg(c, "order")
+                if o is None and leaf in ("ravel", "flatten", "tobytes") and \
+                        isinstance(c.func, ast.Attribute) and \
+                        len(c.args) == 1 and \
+                        (m.resolve(call_name(c) or "") or "").split(".")[0] \
+                        != "numpy":
+                    o = c.args[0]
+                if o is None and leaf == "ravel" and len(c.args) == 2:
+                    o = c.args[1]
+                if not (isinstance(o, ast.Constant) and
+                        isinstance(o.value, str)):
+                    continue
+                n += 1
+                ok = o.value.upper() not in ("K", "A")
+                col.add(rule, fn, norm(c)[:70], ok, "" if ok else
+                        "order=%r takes the elements in the order they lie in "
+                        "memory: for an array that is not C-contiguous (a "
+                        "transposed view, nibabel's Fortran-ordered volumes) "
+                        "the sequence differs from the index order the format "
+                        "prescribes" % o.value, node=c)
+    return n
+
+
+# ---------------------------------------------------------------------
+# a position computed by division from a caller-supplied coordinate and then
+# range-checked on one side only: `idx >= count` is refused, a negative idx
+# (negative coordinate) is not - it names a chunk that does not exist, or by
+# Python's negative indexing one that does  (common rule)
+# ---------------------------------------------------------------------
+def one_sided_index_check(repo, col, shorts):
+    from .dataflow import raise_guards, holds
+    from .core import block_always_raises
+    rule = "E-BOUND.one-sided"
+    n = 0
+    for ms in shorts:
+        try:
+            m = repo.module(ms)
+        except Exception:
+            continue
+        for fn in m.functions.values():
+            defs = local_defs(fn.node)
+            params = set(fn.params) - {"self", "cls"}
+            # quotients of parameter-derived values
+            quot = {}
+            for name, ds in defs.items():
+                for d in ds:
+                    v = d.value
+                    if v is None:
+                        continue
+                    isq = (isinstance(v, ast.BinOp) and
+                           isinstance(v.op, ast.FloorDiv)) or (
+                        isinstance(v, ast.Call) and call_name(v) == "divmod"
+                        and d.index == 0)
+                    if not isq:
+                        continue
+                    num = v.left if isinstance(v, ast.BinOp) else v.args[0]
+                    src = closure_names(fn.node, names_in(num), defs)
+                    if src & params:
+                        quot[name] = (num, d)
+            if not quot:
+                continue
+            # rejecting tests: raise, or return None / False
+            rejecting = []
+            for st in stmts_of(fn.node):
+                if isinstance(st, ast.If) and not st.orelse and st.body and (
+                        block_always_raises(st.body) or (
+                            isinstance(st.body[-1], ast.Return) and (
+                                st.body[-1].value is None or (
+                                    isinstance(st.body[-1].value, ast.Constant)
+                                    and st.body[-1].value.value in
+                                    (None, False))))):
+                    rejecting.append(st)
+            for name, (num, d) in quot.items():
+                upper = lower = None
+                for st in rejecting:
+                    # atoms that hold on the accepted (fall-through) path
+                    for a in holds(st.test, False):
+                        for b in (a, a.flipped()):
+                            l = norm(b.left)
+                            if l != name and l not in {
+                                    norm(num)} | names_in(num):
+                                continue
+                            if l == name and b.op in ("<", "<=") and \
+                                    const_int(b.right) is None:
+                                upper = st
+                            if b.op in (">=", ">") and \
+                                    const_int(b.right) in (0, -1):
+                                lower = st
+                    # chained / combined forms: 0 <= idx < n
+                    t = norm(st.test)
+                    if ("0 <= %s" % name) in t or ("%s >= 0" % name) in t or \
+                            ("%s < 0" % name) in t or ("0 > %s" % name) in t:
+                        lower = st
+                    for nm_ in names_in(num):
+                        if ("%s < 0" % nm_) in t or ("0 <= %s" % nm_) in t \
+                                or ("%s >= 0" % nm_) in t:
+                            lower = st
+                if upper is None:
+                    continue
+                # a lower bound established elsewhere (assert, guard of the
+                # numerator in any form)?
+                if lower is None:
+                    for g, atoms in raise_guards(fn.node):
+                        for a in atoms:
+                            for b in (a, a.flipped()):
+                                if b.op in (">=", ">") and \
+                                        const_int(b.right) in (0, -1) and (
+                                            norm(b.left) == name or
+                                            names_in(b.left) & names_in(num)):
+                                    lower = g
+                n += 1
+                col.add(rule, fn, "%s = %s" % (name, norm(d.value)[:40]),
+                        lower is not None, "" if lower is not None else
+                        "`%s` is a quotient of caller-supplied `%s` and is "
+                        "refused when it is too large (`%s`), but nothing "
+                        "refuses a negative value: a negative coordinate is "
+                        "accepted" % (name, norm(num), norm(upper.test)[:50]),
+                        node=upper)
+    return n
+
+
+# ---------------------------------------------------------------------
+# generic iteration / identity hazards  (common rules)
+# ---------------------------------------------------------------------
+_MUTATORS = ("remove", "append", "pop", "insert", "clear", "extend", "sort",
+             "reverse", "add", "discard", "update", "popitem", "setdefault")
+
+
+def mutation_during_iteration(repo, col, shorts):
+    """`for x in L: ... L.remove(x)`: the iterator of a list steps by
+    position, removing an element makes it skip the next one (adding one makes
+    it visit more); a dict or set raises.  Iterating over a copy
+    (list(L), L[:], tuple(L), sorted(L)) is the idiom."""
+    rule = "E-ITER.mutated"
+    n = 0
+    for ms in shorts:
+        try:
+            m = repo.module(ms)
+        except Exception:
+            continue
+        for fn in m.functions.values():
+            for lp in walk_local(fn.node):
+                if not isinstance(lp, ast.For):
+                    continue
+                it = lp.iter
+                base = None
+                if isinstance(it, (ast.Name, ast.Attribute)):
+                    base = norm(it)
+                elif isinstance(it, ast.Call) and call_name(it) in (
+                        "enumerate", "reversed", "iter") and it.args and \
+                        isinstance(it.args[0], (ast.Name, ast.Attribute)):
+                    base = norm(it.args[0])
+                elif isinstance(it, ast.Call) and \
+                        isinstance(it.func, ast.Attribute) and \
+                        it.func.attr in ("items", "keys", "values") and \
+                        not it.args:
+                    base = norm(it.func.value)
+                if base is None:
+                    continue
+                hit = None
+                for st in lp.body:
+                    for x in ast.walk(st):
+                        if isinstance(x, ast.Call) and \
+                                isinstance(x.func, ast.Attribute) and \
+                                x.func.attr in _MUTATORS and \
+                                norm(x.func.value) == base:
+                            hit = x
+                        if isinstance(x, ast.Delete) and any(
+                                isinstance(t, ast.Subscript) and
+                                norm(t.value) == base for t in x.targets):
+                            hit = x
+                if hit is None:
+                    continue
+                # leaving the loop right after the mutation is fine
+                owner = None
+                for st in ast.walk(lp):
+                    if isinstance(st, (ast.If, ast.For, ast.While, ast.With,
+                                       ast.Try)) or st is lp:
+                        for fld in ("body", "orelse", "finalbody"):
+                            blk = getattr(st, fld, None)
+                            if isinstance(blk, list):
+                                for i_, s_ in enumerate(blk):
+                                    if any(y is hit for y in ast.walk(s_)):
+                                        owner = (blk, i_)
+                leaves = False
+                if owner is not None:
+                    blk, i_ = owner
+                    leaves = any(isinstance(s_, (ast.Break, ast.Return,
+                                                 ast.Raise))
+                                 for s_ in blk[i_ + 1:i_ + 2]) or \
+                        isinstance(blk[i_], (ast.Return,))
+                n += 1
+                col.add(rule, fn, "for ... in %s: %s" % (base, norm(hit)[:40]),
+                        leaves, "" if leaves else
+                        "`%s` is changed by `%s` while the loop iterates over "
+                        "it: elements are skipped (or visited twice); iterate "
+                        "over a copy" % (base, norm(hit)[:50]), node=hit)
+    return n
+
+
+def stale_loop_variable(repo, col, shorts):
+    """A comprehension / loop whose own target is never used while its body
+    reads the target of an *earlier, finished* loop: every round computes the
+    same thing from whatever that loop left behind."""
+    rule = "E-ITER.stale-variable"
+    n = 0
+    for ms in shorts:
+        try:
+            m = repo.module(ms)
+        except Exception:
+            continue
+        for fn in m.functions.values():
+            loops = [x for x in walk_local(fn.node) if isinstance(x, ast.For)]
+            if not loops:
+                continue
+            for lp in loops:
+                tnames = {t.id for t in ast.walk(lp.target)
+                          if isinstance(t, ast.Name)}
+                end = getattr(lp, "end_lineno", lp.lineno)
+                for x in walk_local(fn.node):
+                    gens = []
+                    if isinstance(x, (ast.ListComp, ast.SetComp,
+                                      ast.GeneratorExp, ast.DictComp)):
+                        gens = x.generators
+                        body = [x.elt] if not isinstance(x, ast.DictComp) \
+                            else [x.key, x.value]
+                    elif isinstance(x, ast.For) and x is not lp:
+                        class _G:
+                            pass
+                        g_ = _G()
+                        g_.target, g_.ifs = x.target, []
+                        gens = [g_]
+                        body = x.body
+                    else:
+                        continue
+                    if getattr(x, "lineno", 0) <= end:
+                        continue        # not after the first loop
+                    if any(y is x for y in ast.walk(lp)):
+                        continue
+                    own = {t.id for g in gens for t in ast.walk(g.target)
+                           if isinstance(t, ast.Name)}
+                    used = {y.id for b in body for y in ast.walk(b)
+                            if isinstance(y, ast.Name)
+                            and isinstance(y.ctx, ast.Load)}
+                    used |= {y.id for g in gens for i_ in g.ifs
+                             for y in ast.walk(i_) if isinstance(y, ast.Name)}
+                    if (own - {"_"}) & used or not own - {"_"}:
+                        continue        # the own target is used (or is `_`)
+                    stale = tnames & used
+                    if not stale:
+                        continue
+                    # re-bound between the two loops?
+                    defs = local_defs(fn.node)
+                    rebound = any(
+                        d.stmt is not None and
+                        end < getattr(d.stmt, "lineno", 0) <= x.lineno and
+                        not any(y is d.stmt for y in ast.walk(lp))
+                        for v in stale for d in defs.get(v, []))
+                    if rebound:
+                        continue
+                    n += 1
+                    v = sorted(stale)[0]
+                    col.add(rule, fn, norm(x)[:70], False,
+                            "the loop variable `%s` is never used, while the "
+                            "body reads `%s`, which is what the loop at line "
+                            "%d left behind: every element is computed from "
+                            "that one value" % (sorted(own)[0], v, lp.lineno),
+                            node=x)
+    return n
+
+
+def identity_as_key(repo, col, shorts):
+    """id(obj) is unique only while obj is alive: a name or key built from it
+    is handed to the next object that is allocated at the same address."""
+    rule = "E-STATE.id-key"
+    n = 0
+    for ms in shorts:
+        try:
+            m = repo.module(ms)
+        except Exception:
+            continue
+        for fn in m.functions.values():
+            owner = None
+            for c in calls_in(fn.node):
+                if not (isinstance(c.func, ast.Name) and c.func.id == "id"
+                        and len(c.args) == 1):
+                    continue
+                # used for a name, a path or a key?
+                used = None
+                for x in walk_local(fn.node):
+                    inside = any(y is c for y in ast.walk(x))
+                    if not inside:
+                        continue
+                    if isinstance(x, (ast.JoinedStr,)):
+                        used = "a formatted string"
+                    if isinstance(x, ast.Call) and (
+                            (call_name(x) or "").split(".")[-1] in (
+                                "format", "str", "hex", "join")):
+                        used = used or "a string"
+                    if isinstance(x, ast.BinOp) and isinstance(
+                            x.op, (ast.Mod, ast.Div, ast.Add)) and any(
+                            isinstance(s_, (ast.Constant, ast.JoinedStr))
+                            for s_ in (x.left, x.right)):
+                        used = used or "a name"
+                    if isinstance(x, ast.Subscript) and any(
+                            y is c for y in ast.walk(x.slice)):
+                        used = used or "a key"
+                if used is None:
+                    continue
+                n += 1
+                col.add(rule, fn, norm(c)[:40], False,
+                        "%s goes into %s: once the object is freed its "
+                        "address - and with it this name - is given to "
+                        "another object, which then meets what the first one "
+                        "left behind" % (norm(c), used), node=c)
+    return n
+
+
+# ---------------------------------------------------------------------
+# the pyramid code names everything of the source scale old_* and of the
+# scale being computed new_*: a volume size and a chunk size that go into
+# one grid / extent computation belong to the same scale  (C06, C20)
+# ---------------------------------------------------------------------
+def scale_pair_consistent(repo, col, shorts=("dyadic_pyramid",)):
+    rule = "E-TILE.scale-pair"
+    n = 0
+
+    def tag(e):
+        """('old'|'new', 'size'|'chunk') of an argument expression."""
+        while isinstance(e, ast.Subscript):
+            e = e.value
+        if not isinstance(e, ast.Name):
+            return None
+        parts = e.id.split("_")
+        if parts[0] not in ("old", "new") or len(parts) < 2:
+            return None
+        rest = "_".join(parts[1:])
+        if rest == "size":
+            return parts[0], "size"
+        if rest in ("chunk_size", "chunk_sizes"):
+            return parts[0], "chunk"
+        return None
+    for ms in shorts:
+        try:
+            m = repo.module(ms)
+        except Exception:
+            continue
+        for fn in m.functions.values():
+            for c in calls_in(fn.node):
+                tags = [t for t in (tag(a) for a in list(c.args) +
+                                    [k.value for k in c.keywords]) if t]
+                sizes = {t[0] for t in tags if t[1] == "size"}
+                chunks = {t[0] for t in tags if t[1] == "chunk"}
+                if len(sizes) != 1 or len(chunks) != 1:
+                    continue
+                n += 1
+                ok = sizes == chunks
+                col.add(rule, fn, norm(c)[:70], ok, "" if ok else
+                        "the size of the %s scale is combined with the chunk "
+                        "size of the %s scale: the grid / extent computed "
+                        "here belongs to neither" % (sorted(sizes)[0],
+                                                     sorted(chunks)[0]),
+                        node=c)
+    return n
+
+
+# ---------------------------------------------------------------------
+# keys read from a sharding specification are keys the specification has
+# (the parameters of ShardSpec and "@type"): `.get("preshift", 0)` silently
+# yields the default for every dataset  (C09, C04)
+# ---------------------------------------------------------------------
+def sharding_spec_keys(repo, col):
+    from .core import is_new_module
+    rule = "E-SPEC.sharded.keys"
+    try:
+        ini = repo.func("sharded_base", "ShardSpec.__init__")
+    except Exception:
+        return 0
+    allowed = {p for p in ini.params if p != "self"} | {"@type"}
+    n = 0
+    for m in repo.modules.values():
+        if not (m.short.startswith("sharded") or is_new_module(m.name)
+                or m.short in ("accessor", "volume_reader", "precomputed_io")):
+            continue
+        for fn in m.functions.values():
+            for x in walk_local(fn.node):
+                key = recv = None
+                if isinstance(x, ast.Call) and \
+                        isinstance(x.func, ast.Attribute) and \
+                        x.func.attr in ("get", "pop") and x.args and \
+                        isinstance(x.args[0], ast.Constant) and \
+                        isinstance(x.args[0].value, str):
+                    key, recv = x.args[0].value, x.func.value
+                elif isinstance(x, ast.Subscript) and \
+                        isinstance(x.slice, ast.Constant) and \
+                        isinstance(x.slice.value, str) and \
+                        isinstance(x.ctx, ast.Load):
+                    key, recv = x.slice.value, x.value
+                if key is None:
+                    continue
+                t = norm(recv)
+                if not (isinstance(recv, ast.Name) and "sharding" in recv.id
+                        or t.endswith("['sharding']")
+                        or t.endswith(".get('sharding')")):
+                    continue
+                n += 1
+                ok = key in allowed
+                col.add(rule, fn, norm(x)[:60], ok, "" if ok else
+                        "`%s` is not a key of the sharding specification "
+                        "(%s): the lookup never finds the configured value"
+                        % (key, ", ".join(sorted(allowed))), node=x)
+    col.add(rule, "package", "%d reads of sharding-specification keys" % n,
+            True, "", nontrivial=False)
+    return n
+
+
+# ---------------------------------------------------------------------
+# a value memoised on the object (`if self._c is None: self._c = f(self.a)`)
+# is stale after a method changes self.a in place, unless that method resets
+# the memo  (common rule; C16 transform objects)
+# ---------------------------------------------------------------------
+def memo_invalidated(repo, col, shorts):
+    rule = "E-CACHE.invalidate"
+    n = 0
+
+    def self_attr(e):
+        while isinstance(e, ast.Subscript):
+            e = e.value
+        if isinstance(e, ast.Attribute) and isinstance(e.value, ast.Name) \
+                and e.value.id == "self":
+            return e.attr
+        return None
+    for ms in shorts:
+        try:
+            m = repo.module(ms)
+        except Exception:
+            continue
+        for ci in m.classes.values():
+            memos = {}          # memo attr -> (method, attrs it is built from)
+            for mname, f in ci.methods.items():
+                for st in walk_local(f.node):
+                    if not (isinstance(st, ast.If) and not st.orelse):
+                        continue
+                    t = st.test
+                    memo = None
+                    if isinstance(t, ast.Compare) and len(t.ops) == 1 and \
+                            isinstance(t.ops[0], ast.Is) and \
+                            isinstance(t.comparators[0], ast.Constant) and \
+                            t.comparators[0].value is None:
+                        memo = self_attr(t.left) if not isinstance(
+                            t.left, ast.Subscript) else None
+                    if memo is None:
+                        continue
+                    for b in st.body:
+                        if isinstance(b, ast.Assign) and any(
+                                self_attr(tg) == memo and
+                                not isinstance(tg, ast.Subscript)
+                                for tg in b.targets):
+                            src = {self_attr(x) for x in ast.walk(b.value)
+                                   if isinstance(x, ast.Attribute) and
+                                   self_attr(x)} - {memo, None}
+                            # through properties of the class
+                            for x in ast.walk(b.value):
+                                if isinstance(x, ast.Attribute) and \
+                                        self_attr(x) in ci.methods:
+                                    pf = ci.methods[self_attr(x)]
+                                    src |= {self_attr(y)
+                                            for y in ast.walk(pf.node)
+                                            if isinstance(y, ast.Attribute)
+                                            and self_attr(y)} - {memo, None}
+                            if src:
+                                memos[memo] = (f, src)
+            for memo, (mf, src) in memos.items():
+                for mname, f in ci.methods.items():
+                    if f is mf or mname == "__init__":
+                        continue
+                    changed = None
+                    resets = False
+                    for st in walk_local(f.node):
+                        tgs = []
+                        if isinstance(st, ast.Assign):
+                            tgs = st.targets
+                        elif isinstance(st, ast.AugAssign):
+                            tgs = [st.target]
+                        for tg in tgs:
+                            a = self_attr(tg)
+                            if a == memo and not isinstance(tg, ast.Subscript):
+                                resets = True
+                            elif a in src:
+                                changed = changed or st
+                        if isinstance(st, ast.Call) and \
+                                isinstance(st.func, ast.Attribute) and \
+                                st.func.attr in _MUTATORS and \
+                                self_attr(st.func.value) in src:
+                            changed = changed or st
+                    if changed is None:
+                        continue
+                    n += 1
+                    col.add(rule, f, "%s changes %s, memo self.%s" % (
+                        mname, norm(changed)[:40], memo), resets,
+                        "" if resets else
+                        "%s.%s keeps its result in self.%s, computed from "
+                        "%s; %s changes that state and does not reset the "
+                        "memo: a value handed out earlier is handed out again"
+                        % (ci.name, mf.qualname.split(".")[-1], memo,
+                           ", ".join("self." + x for x in sorted(src)), mname),
+                        node=changed)
+    return n
+
+
+# ---------------------------------------------------------------------
+# a module-level default *object* handed out as `given or DEFAULT` and then
+# assigned to: every later caller that relies on the default sees the change
+# (common rule)
+# ---------------------------------------------------------------------
+def shared_default_object_mutated(repo, col, shorts):
+    rule = "E-STATE.shared-default"
+    n = 0
+    for ms in shorts:
+        try:
+            m = repo.module(ms)
+        except Exception:
+            continue
+        objs = {nm for nm, v in m.constants.items()
+                if isinstance(v, ast.Call) and isinstance(v.func, ast.Name)
+                and v.func.id in m.classes}
+        if not objs:
+            continue
+        for fn in m.functions.values():
+            defs = local_defs(fn.node)
+            aliases = {}
+            for name, ds in defs.items():
+                for d in ds:
+                    if d.value is None:
+                        continue
+                    v = d.value
+                    cands = [v]
+                    if isinstance(v, ast.BoolOp):
+                        cands = list(v.values)
+                    elif isinstance(v, ast.IfExp):
+                        cands = [v.body, v.orelse]
+                    for e in cands:
+                        if isinstance(e, ast.Name) and e.id in objs:
+                            aliases[name] = e.id
+            for st in walk_local(fn.node):
+                tgs = []
+                if isinstance(st, ast.Assign):
+                    tgs = st.targets
+                elif isinstance(st, ast.AugAssign):
+                    tgs = [st.target]
+                for tg in tgs:
+                    b = tg
+                    while isinstance(b, ast.Subscript):
+                        b = b.value
+                    if isinstance(b, ast.Attribute) and \
+                            isinstance(b.value, ast.Name) and (
+                                b.value.id in aliases or b.value.id in objs):
+                        obj = aliases.get(b.value.id, b.value.id)
+                        n += 1
+                        col.add(rule, fn, norm(st)[:60], False,
+                                "`%s` may be the module-level default object "
+                                "%s: the assignment changes it for every "
+                                "later caller that does not pass its own"
+                                % (b.value.id, obj), node=st)
     return n
